@@ -159,8 +159,21 @@ def run(ctx):
     pops = [s for s in walk_own(f) if isinstance(s, ast.Assign) and isinstance(s.value, ast.Call) and call_attr(s.value) == "popleft"]
     ctx.check("R5-stream-single-step", where, len(ys) == 1 and len(pops) == 1 and norm(ys[0].value) == norm(pops[0].targets[0]), "every part popped from _bytes_parts is yielded")
 
+    # ---- R6: the v3 encoder has one way to the medium, in order -------------------------------------------------------
+    enc_cls = "_ProtocolThreeEncoder"
+    callers = sorted(q for q, f in repo.module(PF).functions().items() if q.startswith(enc_cls + ".") and any(norm(c.func) == "self._real_write_func" for c in calls_in(f)))
+    ctx.check("R6-encoder-single-writer", f"{PF}:{enc_cls}", callers == [f"{enc_cls}.flush"], "only flush() hands bytes to the real write function (everything goes through the buffer, so the wire order is the write order)", construct=str(callers), message=f"the real write function is also called from {[c for c in callers if not c.endswith('.flush')]}: bytes written directly overtake what is still buffered (marker, headers, length prefix), the peer sees a body before its header")
+    ff = repo.func(PF, f"{enc_cls}.flush")
+    ctx.check("R6-encoder-single-writer", f"{PF}:{enc_cls}.flush", any(norm(c) == "self._real_write_func(b''.join(self._buf))" for c in calls_in(ff)) and (any(isinstance(s_, ast.Assign) and norm(s_.targets[0]) == "self._buf" and norm(s_.value) == "[]" for s_ in walk_own(ff)) or any(isinstance(s_, ast.Delete) and norm(s_) == "del self._buf[:]" for s_ in walk_own(ff)) or any(norm(c) == "self._buf.clear()" for c in calls_in(ff))), "flush writes the whole buffer in order and empties it")
+    # ---- R7: after a message-handler error the v3 decoder restarts through its own guarded accept_bytes ----------------
+    fa3 = repo.func(PF, "ProtocolThreeDecoder.accept_bytes")
+    hs = [h for h in ast.walk(fa3) if isinstance(h, ast.ExceptHandler) and h.type is not None and "SmartMessageHandlerError" in norm(h.type)]
+    ok = len(hs) == 1 and any(norm(c) == "self.accept_bytes(b'')" for c in calls_in(ast.Module(body=hs[0].body, type_ignores=[]))) and any(call_attr(c) == "protocol_error" for c in calls_in(ast.Module(body=hs[0].body, type_ignores=[])))
+    ctx.check("R7-restart-through-guard", f"{PF}:ProtocolThreeDecoder.accept_bytes", ok, "after a handler error the decoder reports it and re-enters self.accept_bytes(b'') — the guarded method, so a second handler error in the same buffer is handled the same way", message="the restart after a message-handler error no longer goes through self.accept_bytes: a second handler error raised while draining the same buffer (unknown verb: once at the args, once at the end marker) escapes, the connection is dropped and the next request is lost")
 
 MUTANTS = [
+    Mutant("big writes bypass the encoder buffer", PF, "        self._buf.append(bytes)\n        self._buf_len += len(bytes)\n", "        if len(bytes) > self.BUFFER_SIZE:\n            self._real_write_func(bytes)\n            return\n        self._buf.append(bytes)\n        self._buf_len += len(bytes)\n", expect="R6-encoder-single-writer"),
+    Mutant("decoder restart bypasses its own guard", PF, "            # So we call accept_bytes again to restart it.\n            self.accept_bytes(b\"\")\n", "            _StatefulDecoder.accept_bytes(self, b\"\")\n", expect="R7-restart-through-guard"),
     Mutant("encoder writes an unknown kind byte", PF, "        self._write_func(b\"s\")\n", "        self._write_func(b\"x\")\n", expect="R1-part-kinds"),
     Mutant("length prefix packed as !H", PF, "        self._write_func(b\"b\")\n        self._write_func(struct.pack(\"!L\", len(bytes)))", "        self._write_func(b\"b\")\n        self._write_func(struct.pack(\"!H\", len(bytes)))", expect="R1-length-prefix"),
     Mutant("state advanced after the handler ran", PF, "        prefixed_bytes = self._extract_length_prefixed_bytes()\n        self.state_accept = self._state_accept_expecting_message_part\n        try:\n            self.message_handler.bytes_part_received(prefixed_bytes)\n        except BaseException as e:\n            raise SmartMessageHandlerError(sys.exc_info()) from e\n", "        prefixed_bytes = self._extract_length_prefixed_bytes()\n        try:\n            self.message_handler.bytes_part_received(prefixed_bytes)\n        except BaseException as e:\n            raise SmartMessageHandlerError(sys.exc_info()) from e\n        self.state_accept = self._state_accept_expecting_message_part\n", expect="R3-state-before-handler"),
